@@ -290,7 +290,18 @@ let run_case op toks =
                && List.for_all2 (fun po x -> match po with Some n -> z_eq n x | None -> true) p2 xs in
       let e2 = ext_convert t2 p2 t1 src in
       match op with
-      | "ext_conv" -> (ext_line t2 e2, if ok then ext_spec_line p2 xs else "na")
+      | "ext_conv" ->
+          (* which conversions are implicit: extents, LL, RR, mdspan, strided->left, strided->right, left->strided,
+             right->strided, strided->strided (copy constructor when the two extents types coincide), rank <= 1: RL, LR *)
+          let imp = conv_implicit t2 p2 t1 p1 in
+          let r0 = p1 = [] in
+          let same = t1 = t2 && p1 = p2 in
+          let cvl imp = [ "cv" ] @ List.map b2s ([ imp; imp; imp; imp; r0; r0; imp; imp; same || imp ]
+                                               @ (if List.length p1 <= 1 then [ imp; imp ] else [])) in
+          (* spec leg: the wording of [mdspan.extents.cons] / [mdspan.layout.*.cons], written out here *)
+          let simp = z_le (imax t1) (imax t2)
+                     && List.for_all2 (fun a b -> not (a <> None && b = None)) p2 p1 in
+          (join (ext_line t2 e2 :: cvl imp), if ok then join (ext_spec_line p2 xs :: cvl simp) else "na")
       | "map_conv" when (let k = peek_kind toks in k = "SL" || k = "SR") ->
           let kind = next_str toks in
           let l = if kind = "SL" then LLeft else LRight in
